@@ -164,6 +164,13 @@ def run(ctx):
         solves += done
         for msg in msgs:
             res.add_violation(dict(driver="shared" if t.get("shared") else "history", **t, message=msg, sig={}))
+    # a solver with a non-default density copied mid-run (deepcopy / pickle): copy and original stay on their grid
+    from mc import copyrun
+    ctasks = [dict(t, density=m) for t in copyrun.tasks(th) if t["N"] >= 2 and t["k"] in (2, 12) for m in (3, 7, 12)]
+    for t, msgs in zip(ctasks, pmap(copyrun.case_c20, ctasks, chunksize=4)):
+        solves += 2
+        for mm in msgs:
+            res.add_violation(dict(driver="copy", task=t, message=mm, sig={}))
     res.cov = dict(
         evaluations=solves, distinct_nontrivial=multi,
         rule="histories = for every (N in 2..5, box, objective) the densities 2..12 (thorough 2..16) ascending and descending, solved one after "
@@ -179,6 +186,9 @@ def run(ctx):
 
 
 def replay(rec):
+    if rec.get("driver") == "copy":
+        from mc import copyrun
+        return copyrun.case_c20(rec["task"])
     if rec.get("shared"):
         return shared_history(rec)[0]
     if "ms" in rec:
